@@ -298,6 +298,46 @@ pub fn run(ctx: &Ctx) {
     ctx.run("program", ctx.n(4000, 60_000), || vec(any::<u16>(), 20..1500), |c| check_program(c, false));
     ctx.run("module+library", ctx.n(2500, 40_000), || vec(any::<u16>(), 20..1200), check_module);
     ctx.run("data", ctx.n(3000, 100_000), || vec(any::<u16>(), 60..500), check_data);
+    // execution proofs: one honest proof per standard option set (hash function / security level)
+    // and program shape; bytes -> proof -> bytes is the identity, the decoded proof is equal, keeps
+    // its hash function and security level, and still verifies
+    let mut items: Vec<(usize, &'static str, Vec<u64>)> = vec![];
+    for set in 0..4 {
+        items.push((set, "begin push.1 push.2 add end", vec![]));
+        items.push((set, "begin repeat.20 dup mul end swap drop end", (1..=18).collect()));
+    }
+    ctx.run_list("proofs", &items, |(set, src, stack)| {
+        let case = vm::Case { src: src.to_string(), stack: stack.clone(), ..vm::Case::default() };
+        let cj = || json!({"kind": "proof", "option_set": crate::props::c01::SETS[*set], "src": src, "stack": stack});
+        let (opts, hash_fn, level) = crate::props::c01::options(*set);
+        let program = match vm::assemble(&case, false) {
+            vm::Assembled::Ok(p) => p,
+            _ => return Err(Viol::new("C10:setup", "fixed program does not assemble", cj())),
+        };
+        let proved = vm::catch(|| prover::prove(&program, case.stack_inputs(), case.host(), opts)).map_err(|p| Viol::new("C10:prove-panic", p, cj()))?;
+        let (outputs, proof) = proved.map_err(|e| Viol::new("C10:setup", format!("proving failed: {e}"), cj()))?;
+        let bytes = proof.to_bytes();
+        let back = match vm::catch(|| miden::ExecutionProof::from_bytes(&bytes)) {
+            Err(p) => return Err(Viol::new("C10:proof-from-bytes-panic", p, cj())),
+            Ok(Err(e)) => return Err(Viol::new("C10:proof-undecodable", format!("a serialised proof does not decode: {e}"), cj())),
+            Ok(Ok(b)) => b,
+        };
+        if back != proof || back.hash_fn() != hash_fn || back.hash_fn() != proof.hash_fn() {
+            return Err(Viol::new("C10:proof-roundtrip", format!("proof differs after to_bytes/from_bytes (hash function {:?} -> {:?})", proof.hash_fn(), back.hash_fn()), cj()));
+        }
+        if back.to_bytes() != bytes {
+            return Err(Viol::new("C10:proof-reencode", "re-encoding the decoded proof yields other bytes", cj()));
+        }
+        if back.security_level() != proof.security_level() || proof.security_level() < level {
+            return Err(Viol::new("C10:proof-roundtrip", "security level changes over the round trip", cj()));
+        }
+        let info = ProgramInfo::new(program.hash(), program.kernel().clone());
+        match vm::catch(|| verifier::verify(info, case.stack_inputs(), outputs, back)) {
+            Ok(Ok(_)) => Ok(Info { nontrivial: Some(fp_str(&format!("{set}{src}"))), classes: vec![format!("proof:{}", crate::props::c01::SETS[*set])], ..Info::default() }),
+            Ok(Err(e)) => Err(Viol::new("C10:proof-roundtrip", format!("the decoded proof no longer verifies: {e}"), cj())),
+            Err(p) => Err(Viol::new("C10:verify-panic", p, cj())),
+        }
+    });
 }
 
 pub fn replay(ctx: &Ctx, v: &serde_json::Value) {
